@@ -604,7 +604,7 @@ package redis
 //@   ensures @cluster-down-triggers-a-slot-refresh trigcount == old(trigcount) + 1
 
 //@ func (*upstream).doSlotsRefresh
-//@   prop C11 C07 C04 C14 C03
+//@   prop C11 C07 C04 C14 C03 C12
 //@   requires u != nil
 //@   loop 1 invariant @every-listed-slot-now-points-to-the-freshly-parsed-node forall j int :: 0 <= j && j <= rangeindex && 0 <= inst.Slots[j] && inst.Slots[j] < 16384 ==> u.slots[inst.Slots[j]] == inst
 
